@@ -67,6 +67,11 @@ class Rt:
         self.blocked = {}        # external task index -> (hang record kind, fields) while it is blocked in a bus call
         self.xid = {}            # asyncio task -> external task index
         self.next_expect = {}    # asyncio task -> handler index for the expect() it is about to call
+        self.expect_x = {}       # expect handler index -> external task number
+        self.expect_fut = {}     # expect handler index -> the call's future (from the temporary handler's closure)
+        self.expect_dead = set() # expect handler indices whose future was seen cancelled
+        self.expect_creq = set() # expect handler indices whose calling task the harness cancelled
+        self.expect_cur = {}     # external task number -> handler index of its current expect() call
         self.nextra = 0          # extra (expect) handler indices allocated
         self.cur_pe = {}         # asyncio task -> stack of (b, e) being processed
         self.wal = {}            # bus idx -> list of lines
@@ -332,6 +337,14 @@ class TBus(EventBus):
             k = RT.next_expect.pop(t)
             RT.hidx[(RT.busidx[self], id(handler))] = k
             RT.hkind[k] = 'expect'
+            RT.expect_x[k] = RT.xid.get(t)
+            RT.expect_cur[RT.xid.get(t)] = k
+            for c in (getattr(handler, '__closure__', None) or ()):
+                try:
+                    if isinstance(c.cell_contents, asyncio.Future):
+                        RT.expect_fut[k] = c.cell_contents
+                except ValueError:
+                    pass
             RT.keepalive.append(handler)   # ids of temporary handlers must not be reused within a scenario
         return r
 
@@ -434,6 +447,14 @@ def traced_event_result_update(self, handler, eventbus=None, **kwargs):
         RT.pending_inst.setdefault((b, e, k), []).append(i)
         RT.last_inst[(b, e, k)] = i
         x = RT.act.get((b, e)) or ['?']
+        if RT.hkind.get(k) == 'expect' and k not in RT.expect_dead:
+            # the call's future was cancelled (deadline fired / caller cancelled) before its temporary handler runs:
+            # reported at the moment it becomes observable
+            fut = RT.expect_fut.get(k)
+            if fut is not None and fut.cancelled():
+                RT.expect_dead.add(k)
+                if k not in RT.expect_creq and RT.expect_cur.get(RT.expect_x.get(k)) == k:
+                    RT.rec('expectTimeout', x=RT.expect_x.get(k))
         RT.rec('hSched', x=x[-1], i=i, b=b, e=e, h=k, hk=RT.hkind.get(k, '?'))
     elif kwargs.get('status') == 'pending':
         RT.rec('resPending', b=b, e=e, h=k, existed=existed)
@@ -505,6 +526,14 @@ async def run_prog(i, bi, event, prog, sync):
                 got = type(ex).__name__
             RT.rec('readbus', i=i, got=got, want=bi)
         elif op == 'raise':
+            # the ways application code raises: plainly, chained (`from`), or while handling another exception
+            if i % 3 == 1:
+                raise ValueError(f'handler instance {i} raises') from KeyError('cause')
+            if i % 3 == 2:
+                try:
+                    raise KeyError('context')
+                except KeyError:
+                    raise ValueError(f'handler instance {i} raises')
             raise ValueError(f'handler instance {i} raises')
         elif op == 'return':
             ret = ins[1]
@@ -633,13 +662,16 @@ async def ext_task(x, prog, slots):
                 try:
                     got = await b.expect(key, include=include, timeout=to)
                     # recorded here: atomic with the removal of the temporary handler in expect()'s finally
+                    RT.expect_cur.pop(x, None)
                     RT.rec('expectEnd', x=x, b=bi, got=eid(got), bus=bussnap(b))
                     return got
                 except TimeoutError:
+                    RT.expect_cur.pop(x, None)
                     RT.rec('expectEnd', x=x, b=bi, got=None, bus=bussnap(b))
                     raise
                 except asyncio.CancelledError:
                     # recorded here: atomic with the removal of the temporary handler in expect()'s finally
+                    RT.expect_cur.pop(x, None)
                     RT.rec('expectCancel', x=x, b=bi, bus=bussnap(b))
                     raise
             RT.blocked[x] = ('expectCancel', {'x': x, 'b': bi})
@@ -649,18 +681,25 @@ async def ext_task(x, prog, slots):
                 if cancel_after is not None:
                     done, _ = await asyncio.wait({t}, timeout=cancel_after)
                     if not done:
+                        if x in RT.expect_cur:
+                            RT.expect_creq.add(RT.expect_cur[x])
+                            RT.rec('expectCancelReq', x=x)
                         t.cancel()
                 await t
             except TimeoutError:
                 pass
             except asyncio.CancelledError:
                 if not t.done():
+                    if x in RT.expect_cur and RT.expect_cur[x] not in RT.expect_creq:
+                        RT.expect_creq.add(RT.expect_cur[x])
+                        RT.rec('expectCancelReq', x=x)
                     t.cancel()
                     raise
                 if asyncio.current_task().cancelling():
                     raise
             finally:
                 RT.blocked.pop(x, None)
+                RT.expect_cur.pop(x, None)
             continue
         if o == 'dispatch':
             ev = mk_event(op[2])
@@ -780,6 +819,8 @@ async def run_sc(sc):
             for x, (kind, fields) in sorted(RT.blocked.items()):
                 if kind != 'expectCancel':
                     RT.rec(kind, **fields)
+                else:
+                    RT.rec('expectHang', x=x)      # (legitimate unless its deadline has passed or it was resolved)
             for t in tasks:
                 t.cancel()
             for _ in range(4):
